@@ -45,6 +45,15 @@ def cases(tier, seed):
         for ops in histories(b["mixin_history_len"][str(cap)], MIX, MIX0, KEYS[:cap + 1]):
             if any(o[0] not in ("set", "get", "del") for o in ops):   # the rest is in the core family
                 yield {"kind": "history", "cap": cap, "ops": ops}
+    # == between two caches (same content / same or different access history / different content) and update() with every short
+    # sequence of pairs incl. REPEATED keys, as pairs, as a dict and as keyword arguments (reference: the stores in order)
+    import itertools
+    for cap in (1, 2, 3):
+        for n in range(0, 4):
+            for keys in itertools.product("pq" if n == 3 else "pqr", repeat=n):
+                yield {"kind": "update-seq", "cap": cap, "pre": ["o", "p"][:cap], "keys": list(keys)}
+        for fill in ([], ["a"], ["a", "b"], ["a", "b", "c"]):
+            yield {"kind": "eq2", "cap": cap, "fill": fill}
     rng = random.Random(seed)
     pool = [0, 1, 2, 3, "a", "b", "", None, (1, 2), ("a",), -1, 10 ** 20, 2.5, "True", frozenset()]
     allops = sorted(set(CORE + MIX)) * 2 + list(CORE0 + MIX0)
@@ -122,7 +131,72 @@ def _hit(ref, k):
     return ref[k]
 
 
+def _ref_store(ref, cap, k, v):
+    if k not in ref and len(ref) >= cap:
+        ref.popitem(last=True)
+    ref[k] = v
+    ref.move_to_end(k, last=False)
+
+
+def _run_special(case):
+    cap = case["cap"]
+    try:
+        if case["kind"] == "update-seq":
+            pairs = [(k, "u%d" % i) for i, k in enumerate(case["keys"])]
+            forms = [("pairs", lambda c: c.update(list(pairs))), ("iterator", lambda c: c.update(iter(pairs)))]
+            if len(set(case["keys"])) == len(case["keys"]):
+                forms += [("dict", lambda c: c.update(dict(pairs))), ("kwargs", lambda c: c.update(**dict(pairs)))]
+            for form, do in forms:
+                c = call("lru/construct", LRUCache, cap)[1]
+                ref = collections.OrderedDict()
+                for j, k in enumerate(case["pre"]):
+                    c[k] = "s%d" % j
+                    _ref_store(ref, cap, k, "s%d" % j)
+                call("lru/update-terminate", do, c)
+                for k, v in pairs:
+                    _ref_store(ref, cap, k, v)
+                order = call("lru/iteration-terminate", lambda: take(iter(c), len(ref) + 1))[1]
+                check(order == list(ref), "lru/update", {"keys": list(ref)}, {"form": form, "pairs": pairs, "order": order})
+                vals = [c.cache[k].data[1] for k in order if k in c.cache]
+                check(vals == list(ref.values()), "lru/update", {"values": list(ref.values())}, {"form": form, "pairs": pairs, "values": vals})
+                _internal(c, ref)
+                # a following store evicts the reference victim
+                _store(c, ref, cap, "z", "last", "lru/store")
+                order = take(iter(c), len(ref) + 1)
+                check(order == list(ref), "lru/update", {"keys after one more store": list(ref)}, {"form": form, "pairs": pairs, "order": order})
+            return ok("lru/update-seq", trivial=False)
+        if case["kind"] == "eq2":
+            fill = case["fill"][:cap]
+            def mk(order, vals=None):
+                c = LRUCache(cap)
+                for k in order:
+                    c[k] = (vals or {}).get(k, "v" + k)
+                return c
+            a, b = mk(fill), mk(fill)
+            r = call("lru/eq-terminate", lambda: a == b)[1]
+            check(r is True, "lru/eq-agree", True, {"two caches, same stores": fill, "==": r})
+            a, b = mk(fill), mk(list(reversed(fill)))
+            r = call("lru/eq-terminate", lambda: a == b)[1]
+            check(r is True, "lru/eq-agree", True, {"two caches, same content, different recency": fill, "==": r})
+            r = call("lru/eq-terminate", lambda: a != b)[1]
+            check(r is False, "lru/eq-agree", False, {"two caches, same content, different recency": fill, "!=": r})
+            if fill:
+                a, b = mk(fill), mk(fill, {fill[-1]: "<different>"})
+                r = call("lru/eq-terminate", lambda: a == b)[1]
+                check(r is False, "lru/eq-agree", False, {"two caches, one value differs": fill, "==": r})
+                a, b = mk(fill), mk(fill[:-1])
+                r = call("lru/eq-terminate", lambda: a == b)[1]
+                check(r is (len(fill[:-1]) == len(fill)), "lru/eq-agree", False, {"two caches, one key missing": fill, "==": r})
+                r = call("lru/eq-terminate", lambda: a == dict((k, "v" + k) for k in fill))[1]
+                check(r is True, "lru/eq-agree", True, {"cache == dict": fill, "==": r})
+            return ok("lru/eq2", trivial=not fill)
+    except Fail as f:
+        return f.result
+
+
 def run_case(case):
+    if case.get("kind") in ("update-seq", "eq2"):
+        return _run_special(case)
     cap, ops = case["cap"], case["ops"]
     key = (lambda x: _POOL[x]) if case.get("keypool") else (lambda x: x)
     stored = False
